@@ -257,9 +257,9 @@ fn main() {
                         for gb in &giants {
                             for flags in 0..8u32 {
                                 check(&mut run, ga, gb, flags & 1 != 0, flags & 2 != 0, flags & 4 != 0);
+                                run.tick(); // quadratic tables
                             }
                         }
-                        run.tick();
                     }
                 }
                 for pos in [0, n / 2, n - 1] {
